@@ -73,6 +73,20 @@ CHECKS = {
           "tree. Every <=1-deviation configuration is also run concretely for 3 updates and must reproduce the abstract signature.",
           "Value-dependent failures belong to C03; combinations of 3+ simultaneous deviations outside the cluster are not covered; "
           "vmap(axis_name) stands in for pmap in the abstract runs (pmap is used in the concrete ones).", "DESIGN.md §4 C07"),
+  "C09": ("explicit-state BFS over all gradient histories up to depth T through the three real frequent-directions step functions "
+          "and through the public optimizers, lock-step with the exact float64 covariance",
+          "For rank k in {1,2,3} x decay b in {1,0.5,0.25}: distributed_shampoo._fd_update_root iterated directly (factors from "
+          "frequent_directions_update, padding {0,3} with garbage in the padding, epsilon {0, 1e-3 absolute}, float64 and float32), "
+          "tearfree.sketchy._update_axis for every axis of tensors of rank 1..3, the OCO sketches (C16 machinery), and the sketches "
+          "read out of optimizer state after public update calls (distributed_shampoo FD mode, tearfree Sketchy) are driven through "
+          "every history over {full rank, rank 1 along e1, rank 1 generic, zero, 2^10-scaled} of length <= 4 (5). After every "
+          "transition: columns of V orthonormal or zero and zero on padding, l >= 0, t >= 0, V l V' <= C <= V l V' + t I against the "
+          "exact b-discounted covariance, t' = b t + removed (k+1)-th eigenvalue of the exact pre-deflation matrix, retained "
+          "eigenvalues = top-k minus the removed one, zero-gradient law, t = 0 for histories of rank <= k, stored inverse roots = "
+          "(l + t + eps)^(-1/p).",
+          "With a ridge the bracket against the exact covariance is replaced by the one-step relation (the ridge is re-added to the "
+          "retained eigenvalues every step); d <= 8, k <= 3. One known finding (public FD mode loses the sketch of statistics smaller "
+          "than the largest) is listed in known_findings.json.", "DESIGN.md §4 C09"),
   "C10": ("explicit-state enumeration (depth 1) of all admissible (d, r), paddings, gapped spectra and gradient shapes through the "
           "real pack/unpack, _low_rank_root and compressed preconditioned_grad against dense float64 reconstructions",
           "All (d, r) with |r|+2 < d <= 8 (10 thorough), both signs, paddings {0,3}: pack/unpack round trips on distinguishable values "
